@@ -122,6 +122,17 @@ def mk_case(F, classes, H, ops, W=0, K=(), impl_only=False):
 
 def corpus():
     return [
+        # one reusable CTrait object bound to two names and used by classes defined before and after; x0 has a
+        # _name_default and no static handler: the siblings keep the declared default
+        mk_case(["e6"], ["-:0=k0,1=k0", "-:0=k0~0,1=k0", "-:0=k0,1=k0"], ["o"],
+                ["new 0", "new 1", "new 2", "get 1 0", "get 1 1", "get 0 0", "get 0 1", "get 2 0", "get 2 1"], K=["c4"]),
+        # the same CTrait object added to two instances; a handler registered on one of them
+        mk_case([], ["-:0=c2"], ["o", "o"], ["new 0", "new 0", "at 0 0 k0", "at 1 0 k0", "rd 0 0 1", "set 1 0 5", "set 0 0 6"],
+                K=["c4"]),
+        # the implicit path: the on-demand <name>_items instance trait (real code + oracle only)
+        mk_case(["F"], ["-:0=U0", "-:0=U0"], ["o", "o"],
+                ["new 0", "new 0", "new 1", "mut 0 0 9", "mut 1 0 10", "mut 2 0 11", "rdi 0 0 1", "mut 1 0 12", "mut 2 0 13",
+                 "mut 0 0 14"], impl_only=True),
         # a raising default is passed through, stores nothing, is retried (C10_default_raises)
         mk_case(["yV4.5"], ["-:0=fa0/h0"], ["o"], ["new 0", "get 0 0", "get 0 0", "get 0 0", "new 0", "set 1 0 4"]),
         mk_case(["yT4"], ["-:0=c2~0/h0"], ["o"], ["new 0", "rd 0 0 0", "get 0 0", "mut 0 0 9", "get 0 0"]),
@@ -241,6 +252,99 @@ def _random_case(rng):
     return mk_case(F, classes, H, ops, W=1 if (any(sp[:2] in ("rA", "yA") for sp in F) and rng.random() < 0.5) else 0)
 
 
+def shared_case(rng):
+    """One reusable CTrait object bound to several names of a class and to names of other classes defined before
+    and after it; a `_name_default` on ONE of the uses (mostly without static handler); reads on instances of
+    every class, created before and after."""
+    F = ["f" + ".".join(str(x) for x in rng.sample(range(3, 9), rng.randint(0, 2))), "e%d" % rng.choice([4, 5, 6])]
+    K = [rng.choice(["c3", "c4", "c5", "fa0"]) for _ in range(rng.randint(1, 2))]
+    nh = 3
+    uses = []
+    for n in range(rng.randint(2, 3)):
+        uses.append("%d=k%d" % (n, rng.randrange(len(K))))
+    with_default = rng.randrange(len(uses))
+    uses[with_default] += "~%d" % rng.randrange(2)
+    for n in range(len(uses)):
+        if rng.random() < (0.15 if n == with_default else 0.3):
+            uses[n] += "/h%d" % rng.randrange(nh)
+    other = lambda: ",".join("%d=k%d" % (n, rng.randrange(len(K))) for n in range(len(uses)))   # noqa: E731
+    classes = []
+    if rng.random() < 0.7:
+        classes.append("-:" + other())
+    main = len(classes)
+    classes.append("-:" + ",".join(uses))
+    if rng.random() < 0.7:
+        classes.append("-:" + other())
+    if rng.random() < 0.4:
+        classes.append("%d:" % main + ",".join("%d=i" % n for n in range(len(uses))))
+    ops = []
+    ninst = 0
+    for ci in range(len(classes)):
+        ops.append("new %d" % ci)
+        ninst += 1
+    order = list(range(ninst))
+    rng.shuffle(order)
+    for i in order:
+        for n in range(len(uses)):
+            if rng.random() < 0.85:
+                ops.append("get %d %d" % (i, n))
+    if rng.random() < 0.5:
+        ci = rng.randrange(len(classes))
+        ops.append("new %d" % ci)
+        for n in range(len(uses)):
+            ops.append("get %d %d" % (ninst, n))
+    return mk_case(F, classes, ["o"] * nh, ops, K=K)
+
+
+def shared_add_trait_case(rng):
+    """The same CTrait object is added (add_trait) to two instances; a handler is registered on one of them; then
+    both are assigned."""
+    F = ["f4.5"]
+    K = [rng.choice(["c3", "c4", "fa0"])]
+    classes = ["-:0=%s,1=c2" % rng.choice(["c2", "al4", "fa0"])]
+    if rng.random() < 0.5:
+        classes.append("-:0=c5,1=c2")
+    ops = ["new 0", "new 0", "new %d" % (len(classes) - 1)]
+    n = rng.randrange(2)
+    who = rng.sample(range(3), rng.randint(2, 3))
+    for i in who:
+        ops.append("at %d %d k0" % (i, n))
+    a = who[0]
+    ops.append(rng.choice(["rd %d %d 1", "ro %d %d 1"]) % (a, n))
+    if rng.random() < 0.3:
+        ops.append("ra %d 2" % a)
+    others = [i for i in range(3) if i != a]
+    rng.shuffle(others)
+    for i in others:
+        ops.append("set %d %d %d" % (i, n, rng.choice([4, 5, 6])))
+    ops.append("set %d %d 6" % (a, n))
+    for i in range(3):
+        ops.append("get %d %d" % (i, n))
+    return mk_case(F, classes, ["o", "o", "o"], ops, K=K)
+
+
+def items_case(rng):
+    """Real code + oracle only: a List nested in a Union (or Tuple) default has no declared `<name>_items` trait; it
+    is added to the instance on demand when the default list is first mutated.  A handler registered for it on
+    one instance must not hear about other instances (of this or another class)."""
+    classes = ["-:0=U0", "-:0=U0,1=c2"]
+    ops = ["new 0", "new 0", "new 1"]
+    atoms = list(range(9, NATOMS))
+    rng.shuffle(atoms)
+    for i in range(3):
+        ops.append("mut %d 0 %d" % (i, atoms.pop()))
+    a = rng.randrange(3)
+    ops.append("rdi %d 0 1" % a)
+    others = [i for i in range(3) if i != a]
+    rng.shuffle(others)
+    for i in others:
+        ops.append("mut %d 0 %d" % (i, atoms.pop()))
+    if rng.random() < 0.5:
+        ops += ["new 0", "mut 3 0 %d" % atoms.pop()]
+    ops.append("mut %d 0 %d" % (a, atoms.pop()))
+    return mk_case(["F"], classes, ["o", "o"], ops, impl_only=True)
+
+
 def exhaustive():
     """Every default kind (also overridden by value / re-declared with _name_default in a subclass) x every kind
     of operation on the acting instance, with a sibling created before and one after."""
@@ -280,6 +384,12 @@ def generate(rng, tier):
     n = {"quick": 3000, "thorough": 100000}.get(tier, 30000)
     for _ in range(n):
         yield random_case(rng)
+    for _ in range(n // 8):
+        yield shared_case(rng)
+    for _ in range(n // 15):
+        yield shared_add_trait_case(rng)
+    for _ in range(max(20, n // 100)):
+        yield items_case(rng)
 
 
 # ---------------------------------------------------------------------------
@@ -587,6 +697,8 @@ class Run:
                     self.failed_defaults.add(self.cur)      # the factory ran but no default was established
                 if k == "get":
                     read = val
+                    read_struct = None if val is A else structure(self, val)
+                self.read_structs.append(read_struct)
                 stored = (self.cur is not None and
                           ("x%d" % self.cur[1]) in self.objs[self.cur[0]][0].__dict__)
                 self.raised_ops.append((op, exc, self.fraised[r0:], stored, self.log[log0:]))
@@ -978,6 +1090,9 @@ def run_impl(case):
                 and s.split(":", 2)[2].endswith("-of-Any"):
             h = dict(h)
             h["signature"] = s = "shared-default:" + s.split(":", 2)[2]
+        if s.startswith("first-read-not-declared-default:subclass-overridden-") and s.endswith("-of-Any"):
+            h = dict(h)       # the shared object was mutated through another instance before this first read
+            h["signature"] = s = "shared-default:" + s.split(":", 1)[1]
         if s not in sigs:
             sigs.add(s)
             out.append(h)
